@@ -173,6 +173,39 @@ func checkFileFaults(c *mon.Case, f *fileFixture) {
 			c.Count("faults_injected", 1)
 			start, _ := firstSpanStart(spans, st.Absent)
 			judge(fmt.Sprintf("sequential read with block %d/%d unavailable (error kind %d)", i, len(blocks), kind), kind, 0, got, rerr, start-0, true)
+			if kind == 2+i%len(extraErrKinds) {
+				// the same sequential read made in small pieces by a consumer that asks the reader where it
+				// is before every piece (a progress meter): asking changes nothing
+				rs := open()
+				if rs == nil {
+					return
+				}
+				piece := 1 + (i+len(blocks))%5
+				var got2 []byte
+				var rerr2 error
+				if c.Guard("piecewise read with position queries", func() {
+					buf := make([]byte, piece)
+					for steps := 0; steps < 4*len(f.Content)+64; steps++ {
+						if _, rerr2 = rs.Seek(0, io.SeekCurrent); rerr2 != nil {
+							return
+						}
+						n, e := rs.Read(buf)
+						got2 = append(got2, buf[:n]...)
+						if e == io.EOF {
+							return
+						}
+						if e != nil {
+							rerr2 = e
+							return
+						}
+					}
+					rerr2 = fmt.Errorf("harness: read loop did not end")
+				}) {
+					c.Count("faults_injected", 1)
+					c.Count("piecewise_reads_with_position_queries", 1)
+					judge(fmt.Sprintf("sequential read in pieces of %d with a position query before each, block %d/%d unavailable (error kind %d)", piece, i, len(blocks), kind), kind, 0, got2, rerr2, start-0, true)
+				}
+			}
 			c.Sig(fmt.Sprintf("file|%s|single|%s|kind%d", strings.Split(f.Name, "-")[0], faultPos(i, len(blocks)), min(kind, 2)), true)
 		}
 	}
